@@ -23,7 +23,7 @@ STAT_KEYS = ["reaction_cnt", "balanced_cnt", "rb_applied", "rb_solved", "mcs_app
 def gen_plan(base_seed, i, tier):
     rng = common.rng_for(base_seed, "C06", i)
     n = rng.randint(2, 8) if rng.random() < 0.7 else rng.randint(2, 4)
-    w = {"mcs-based": 3, "rule-based": 2, "redox": 1, "input-balanced": 1, "declined": 1, "hand": 1, "no-mcs": 0.5}
+    w = {"mcs-based": 3, "rule-based": 2, "redox": 1, "input-balanced": 1, "declined": 1, "hand": 1, "no-mcs": 0.5, "reverted-mcs": 1, "single-o": 1}
     if rng.random() < 0.2:
         w = {"mcs-based": 12, "no-mcs": 1}  # many reactions of one batch in the MCS stage
         n = rng.randint(5, 9)
